@@ -1431,14 +1431,20 @@ bool DBObject::startTransaction(Access access)
 	if (_connection->inTransaction())
 	{
 		ERROR_MSG("Transaction in database is already active.");
+		delete _transaction;
+		_transaction = NULL;
 		return false;
 	}
 
 	// Ask the connection to start the transaction.
-	if (access == ReadWrite)
-		return _connection->beginTransactionRW();
-	else
-		return _connection->beginTransactionRO();
+	bool started = (access == ReadWrite) ? _connection->beginTransactionRW() : _connection->beginTransactionRO();
+	if (!started)
+	{
+		// No transaction is running: do not leave the object marked as being in one
+		delete _transaction;
+		_transaction = NULL;
+	}
+	return started;
 }
 
 // Commit an attribute transaction
